@@ -186,8 +186,9 @@ NoStaleCount == tcnt = tlen
 (* alphabets for the configurations (a .cfg file cannot spell tuples and records) *)
 KAll   == { << x.t, x.v >> : x \in AllVals }
 KSmall == { << "int", "1" >>, << "bool", "1" >>, << "str", "1" >>, << "float", "nz" >> }
-DAll   == { [dt |-> "f4", ix |-> "A"], [dt |-> "f8", ix |-> "A"], [dt |-> "f8", ix |-> "N"], [dt |-> "f8", ix |-> "B"] }
-DSmall == { [dt |-> "f4", ix |-> "A"], [dt |-> "f8", ix |-> "N"] }
+DAll   == { [dt |-> "f4", ix |-> "A"], [dt |-> "f8", ix |-> "A"], [dt |-> "f8", ix |-> "N"], [dt |-> "f8", ix |-> "B"],
+             [dt |-> "f8", ix |-> "V"] }          \* A, B evenly spaced; V unevenly spaced (DIRECTION instead of SPACING); N holds a NaN
+DSmall == { [dt |-> "f4", ix |-> "A"], [dt |-> "f8", ix |-> "N"], [dt |-> "f8", ix |-> "V"] }
 PAll   == { << "A", "all" >>, << "U", "all" >> }
 PSmall == { << "A", "all" >> }
 
